@@ -680,11 +680,20 @@ func explicitPrefix(e *Env, fv *foundViolation) []workerlib.ExplicitRun {
 		if to := ses.From + fv.V.RunIndex/2 + 1; to < ses.To {
 			ses.To = to
 		}
+	case "coldburst":
 	case "chain":
 		ses.To = (fv.V.RunIndex + 1) * 400
 	case "soak":
 		// (burst runs come first; the whole session up to the failing run is replayed as dumped)
-	case "longpairs", "solo":
+	case "longpairs":
+		if st := ses.Runs; st > 1 {
+			if to := ses.From + (fv.V.RunIndex+1)*st + st; to < ses.To {
+				ses.To = to
+			}
+		} else if to := ses.From + fv.V.RunIndex + 1; to < ses.To {
+			ses.To = to
+		}
+	case "solo":
 		if to := ses.From + fv.V.RunIndex + 1; to < ses.To {
 			ses.To = to
 		}
